@@ -189,7 +189,7 @@ namespace details {
         static notification_data find_notification_data( const void* value )
         {
             notification_data result;
-            for_< characteristics_only_with_cccd >::each( attribute_value( result, value ) );
+            for_< characteristics_sorted_by_priority >::each( attribute_value( result, value ) );
 
             return result;
         }
